@@ -216,9 +216,9 @@ def classify(case):
 
 def oracle(rng, tier):
     if tier == "quick":
-        n, seeds, shuffles, nsingle = 90, list(range(16)), [1, 2, 3, 4], 6
+        n, seeds, shuffles, nsingle = 400, list(range(16)), [1, 2, 3, 4], 8
     else:
-        n, seeds, shuffles, nsingle = 400, list(range(64)) + ["random"] * 8, list(range(1, 13)), 24
+        n, seeds, shuffles, nsingle = 2500, list(range(64)) + ["random"] * 8, list(range(1, 13)), 24
     pts = gen_points(rng, n)
     singles = sorted(rng.sample(range(len(pts)), min(nsingle, len(pts))))
     failures, runs, info = sweep(pts, seeds, shuffles, singles)
